@@ -33,10 +33,14 @@ def validate_chunks(ctx, module, tag, traces, chunk=2000, extra_data=None, max_p
     return bad
 
 
-def pmap(fn, items, procs=None):
-    """Process-parallel map for driver work (numpy code); fn must be picklable (module-level)."""
-    procs = procs or min(len(items), os.cpu_count() or 4)
-    if procs <= 1 or len(items) <= 1:
+def pmap(fn, items, procs=None, min_items=64):
+    """Process-parallel map for driver work (the real library is run in forked workers); fn must be a module-level function
+    of one picklable argument.  Small workloads run inline."""
+    import multiprocessing as mp
+    items = list(items)
+    procs = procs or min(len(items), max(1, (os.cpu_count() or 4) - 2))
+    if procs <= 1 or len(items) < min_items:
         return [fn(x) for x in items]
-    with cf.ProcessPoolExecutor(max_workers=procs) as ex:
-        return list(ex.map(fn, items, chunksize=max(1, len(items) // (procs * 4))))
+    ctxm = mp.get_context('fork')
+    with ctxm.Pool(processes=procs) as pool:
+        return pool.map(fn, items, chunksize=max(1, len(items) // (procs * 8)))
